@@ -34,6 +34,8 @@ type Ctx struct {
 	samples []string
 	keysDir string
 	replay  string
+	// units: number of individual requests / steps evaluated when one case line carries a whole history
+	units int
 }
 
 func newCtx(prop, tier string, seed int64, outDir, keysDir string) *Ctx {
@@ -59,7 +61,7 @@ func (c *Ctx) close() {
 	for _, f := range c.files {
 		f.Close()
 	}
-	meta := map[string]interface{}{"prop": c.prop, "tier": c.tier, "seed": c.seed, "cases": c.n, "hist": c.hist, "samples": c.samples}
+	meta := map[string]interface{}{"prop": c.prop, "tier": c.tier, "seed": c.seed, "cases": c.n, "hist": c.hist, "samples": c.samples, "units": c.units}
 	b, _ := json.MarshalIndent(meta, "", " ")
 	must(os.WriteFile(filepath.Join(c.outDir, "meta.json"), b, 0o644))
 }
